@@ -140,7 +140,8 @@ Record operation := mkOperation { o_done : bool; o_metadata : option any; o_resu
 
 (* a Python value that is an instance of the class generated for proto message [ty] with wire content [payload] *)
 Inductive pyval := Instance (ty : string) (payload : string) | PyNone.
-Inductive raised := ETypeError (want : string) | EStatus (code : nat) (message : string) | EUnexpectedState | EPollingExhausted.
+Inductive raised := ETypeError (want : string) | EStatus (code : nat) (message : string) | EApiError (message : string)
+                 | EUnexpectedState | EPollingExhausted.
 Inductive outcome := Returned (v : pyval) | Raised (e : raised).
 
 (* protobuf_helpers.from_any_pb(cls, any): Any.Unpack succeeds iff the type names agree *)
@@ -150,11 +151,14 @@ Definition from_any (ty : string) (a : any) : outcome :=
   | None => Raised (ETypeError ty)
   end.
 
-(* Operation._set_result_from_operation on a done snapshot *)
+(* Operation._set_result_from_operation on a done snapshot.  The synchronous future raises the exception class of
+   the operation's status code (exceptions.from_grpc_status); AsyncOperation raises a plain GoogleAPICallError that
+   carries the message only. *)
+Definition is_async_wrapping (w : wrapping) : bool := String.eqb (w_module w) "operation_async".
 Definition settle (w : wrapping) (o : operation) : outcome :=
   match o_result o with
   | Response a => from_any (w_result_type w) a
-  | Failed c msg => Raised (EStatus c msg)
+  | Failed c msg => Raised (if is_async_wrapping w then EApiError msg else EStatus c msg)
   | NoResult => Raised EUnexpectedState
   end.
 
@@ -192,6 +196,7 @@ Definition raised_eqb (a b : raised) : bool :=
   match a, b with
   | ETypeError x, ETypeError y => String.eqb x y
   | EStatus c m, EStatus c' m' => Nat.eqb c c' && String.eqb m m'
+  | EApiError m, EApiError m' => String.eqb m m'
   | EUnexpectedState, EUnexpectedState | EPollingExhausted, EPollingExhausted => true
   | _, _ => false
   end.
